@@ -1583,3 +1583,51 @@ func runC14y(c *Ctx) {
 	notExclusive := Cmp("newExclusiveChangeKind==\"\"", VParam(fn, 1), token.EQL, VConstStr(""))
 	c.LatchGated(pkg+".checkChangeConflictExclusiveKinds#unready-change-skipped-only-when-ignored", loops[0], []Clause{{isReady, ignored, notExclusive}})
 }
+
+// runC15y: the rule behind known finding F14.
+func runC15y(c *Ctx) {
+	P := c.P
+	pkg := "overlord/snapstate"
+	c.Rule("C15-R7", "G", "doLinkSnap moves a snap's last-refresh time (the origin of the 90-day bound on holds) only when it links a revision other than the one that was current: linking the current revision again (snap enable) is not a refresh", 1)
+	dl := P.Func(pkg + ".(*SnapManager).doLinkSnap")
+	fLRT := P.Field(pkg + ".SnapState.LastRefreshTime")
+	fCurrent := P.Field(pkg + ".SnapState.Current")
+	fRevert := P.Field(pkg + ".SnapSetup.Revert")
+	timeNow := P.Global(pkg + ".timeNow")
+	n := 0
+	for _, st := range StoresToField(dl, fLRT) {
+		// only the store of a fresh "now"
+		isNow := false
+		if al, ok := Strip(st.Val).(*ssa.Alloc); ok && al.Referrers() != nil {
+			for _, r := range *al.Referrers() {
+				if s2, ok := r.(*ssa.Store); ok && s2.Addr == ssa.Value(al) {
+					if cc, _, ok := CallResult(s2.Val); ok && ViaGlobal(timeNow)(cc) {
+						isNow = true
+					}
+				}
+			}
+		}
+		if !isNow {
+			continue
+		}
+		n++
+		revisionChanged := Atom{Name: "linked revision != previously current revision", Match: func(cd Cond) Pol {
+			if cd.Bin == nil {
+				return PolNone
+			}
+			isCur := func(v ssa.Value) bool {
+				return VField(fCurrent)(v) || DependsOn(v, VField(fCurrent)) || VCellAll(VField(fCurrent))(v)
+			}
+			p := cd.CmpIs(token.NEQ, isCur, anyVal)
+			if p == PolNone {
+				p = cd.CmpIs(token.NEQ, anyVal, isCur)
+			}
+			return p
+		}}
+		_ = fRevert
+		c.Guarded(fmt.Sprintf("%s.(*SnapManager).doLinkSnap#last-refresh-time-moves-only-on-revision-change#%d", pkg, n), dl, st, []Clause{{revisionChanged}}, &GOpt{NoVacuity: true})
+	}
+	if n == 0 {
+		c.Undecided(pkg+".(*SnapManager).doLinkSnap#last-refresh-time", dl.Pos(), "the store of LastRefreshTime = now was not found")
+	}
+}
